@@ -220,9 +220,9 @@ def _check_consolidator(case, res):
 
 def check_case(case) -> Result:
     res = Result()
-    if case["part"] == "concat":
-        return _check_concat(case, res)
-    return _check_consolidator(case, res)
+    res = _check_concat(case, res) if case["part"] == "concat" else _check_consolidator(case, res)
+    res.classes = list(dict.fromkeys(res.classes))  # one count per case and label
+    return res
 
 
 # ---------------------------------------------------------------------------------------------------
